@@ -331,6 +331,38 @@ class Impl:
         cid = self.NS.clean_auto_generated_operation_id(op_id, method, path)
         return [cid, self.NS.sanitize_method_name(cid)]
 
+    def tagops(self, ops: list) -> list | str:
+        """whole generator on a document whose operations carry the given (operationId, tag) pairs; observation =
+        the public method names of every generated endpoint client class (ast), as a sorted list of lists"""
+        import ast
+
+        from pipeline import generate
+        paths = {}
+        for j, (oid, tag) in enumerate(ops):
+            op = {"operationId": oid, "responses": {"204": {"description": "ok"}}}
+            if tag is not None:
+                op["tags"] = [tag]
+            paths[f"/r{j}"] = {"get": op}
+        g = generate({"openapi": "3.0.3", "info": {"title": "T", "version": "1"}, "paths": paths})
+        try:
+            if not g.ok:
+                return f"ERR {g.error}"
+            out = []
+            for f in sorted((g.pkg_dir / "endpoints").glob("*.py")):
+                if f.name == "__init__.py":
+                    continue
+                try:
+                    tree = ast.parse(f.read_text())
+                except SyntaxError as e:
+                    return f"SYNTAX {f.name}: {e.msg}"
+                for c in tree.body:
+                    if isinstance(c, ast.ClassDef) and not c.name.endswith("Protocol"):
+                        out.append([b.name for b in c.body if isinstance(b, (ast.FunctionDef, ast.AsyncFunctionDef))
+                                    and not b.name.startswith("_")])
+            return sorted(out)
+        finally:
+            g.cleanup()
+
     def models(self, raw: list) -> dict:
         d = tempfile.mkdtemp(dir=self.scratch)
         try:
@@ -470,6 +502,18 @@ def run_case(impl: Impl, kind: str, inp: Any) -> dict:
             fails.append(f"method name {obs[1]!r} derived from the cleaned operation id {obs[0]!r} is not a valid identifier")
         if not (obs[0] == inp[0] or (obs[0] and inp[0].startswith(obs[0]))):
             fails.append(f"cleaned operation id {obs[0]!r} is neither the id nor a non-empty prefix of it")
+        return {"input": {"kind": kind, "arg": inp}, "obs": obs, "oracle_fail": fails}
+    if kind == "tagops":
+        obs = impl.tagops(inp)
+        fails = []
+        if isinstance(obs, str):
+            fails.append(f"operations of one client: generation failed or produced unparsable endpoints ({obs})")
+        else:
+            for names in obs:
+                fails += oracle_namespace("methods of one generated client class", len(names), names)
+            if sum(len(n) for n in obs) != len(inp):
+                fails.append(f"operations of one client: {len(inp)} operations declared, "
+                             f"{sum(len(n) for n in obs)} methods generated (dropped or merged)")
         return {"input": {"kind": kind, "arg": inp}, "obs": obs, "oracle_fail": fails}
     if kind == "pipeline":
         obs = impl.pipeline(inp)
@@ -661,6 +705,20 @@ def _main(chk: Check, impl: Impl, replay: dict | None) -> int:
         clean_inputs.append([rng.choice(strings), rng.choice(cmethods), rng.choice(cpaths)])
     clean_cases = [run_case(impl, "clean", x) for x in clean_inputs]
 
+    tag_inputs = [c["input"]["arg"] for c in corpus if c["input"]["kind"] == "tagops"]
+    tpool = ["Users", "users", "USERS", None, "Default", "default", "Orders", "orders", "user_admin", "User-Admin"]
+    ipool = ["getUser", "get_user", "get-user", "GetUser", "ping", "Ping", "list", "List", "foo", "foo_2", "foo-2", "x"]
+    for _ in range(90 * scale):
+        k = rng.randint(2, 5)
+        same = rng.random() < 0.6
+        base_tags = rng.choice([["Users", "users", "USERS"], [None, "Default", "default"], ["Orders", "orders"],
+                                ["user_admin", "User-Admin"]])
+        base_ids = rng.choice([["getUser", "get_user", "get-user", "GetUser"], ["ping", "Ping"], ["foo", "foo", "foo_2", "foo-2"],
+                               ["list", "List", "x"]])
+        tag_inputs.append([[rng.choice(base_ids if same else ipool), rng.choice(base_tags if rng.random() < 0.8 else tpool)]
+                           for _ in range(k)])
+    tag_cases = [run_case(impl, "tagops", x) for x in tag_inputs]
+
     streams = [
         ("fields", field_cases, "list (str * bool) * list (str * str)", "run_fields",
          lambda c: f"({clist(cpair(cstr(k), cbool(q)) for k, q in c['input']['arg'])}, {c_pairs(c['obs'])})",
@@ -689,6 +747,11 @@ def _main(chk: Check, impl: Impl, replay: dict | None) -> int:
          lambda c: f"((({cstr(c['input']['arg'][0])}, {cstr(c['input']['arg'][1])}), {cstr(c['input']['arg'][2])}), "
                    f"({cstr(c['obs'][0])}, {cstr(c['obs'][1])}))",
          {}, "Corr.C20.run_clean: clean_op_id = clean_auto_generated_operation_id (and its method name)"),
+        ("tagops", tag_cases, "list (str * option str) * list (list str)", "run_tagops T",
+         lambda c: "(" + clist(cpair(cstr(i), copt(t, cstr)) for i, t in c['input']['arg']) + ", "
+                   + (clist(c_strs(n) for n in c['obs']) if not isinstance(c['obs'], str) else "[]") + ")",
+         {}, "Corr.C20.run_tagops: global dedup_ops + grouping by normalize_tag_key = method names of the generated "
+             "endpoint client classes"),
         ("models", mod_cases, "list str * list (str * str)", "run_models",
          lambda c: f"({c_strs(c['input']['arg'])}, {c_pairs(c['obs'])})",
          {}, "Corr.C20.run_models: dedup_models = ModelsEmitter generation_name / final_module_stem"),
